@@ -647,6 +647,9 @@ func (p *Program) Run() (Model, error) {
 	// Subscribe to user input.
 	if p.input != nil {
 		if err := p.initCancelReader(false); err != nil {
+			// The terminal has been initialised and the renderer is
+			// running: undo all of that before reporting the error.
+			p.shutdown(true)
 			return model, err
 		}
 	}
